@@ -129,6 +129,7 @@ func FinalizeProposals(header *Header, ctx *context, logger *log.Logger) {
 		err := newFinalize.Unmarshal(txData)
 		if err != nil {
 			logger.Error("Unable to UnMarshal TX(Finalize) :", txData)
+			ctx.deliver.DiscardTxSession()
 			continue
 		}
 		uuidNew, _ := uuid.NewUUID()
@@ -174,6 +175,7 @@ func ExpireProposals(header *Header, ctx *context, logger *log.Logger) {
 		err := newExpire.Unmarshal(txData)
 		if err != nil {
 			logger.Error("Unable to UnMarshal TX(Expire) :", txData)
+			ctx.deliver.DiscardTxSession()
 			continue
 		}
 		uuidNew, _ := uuid.NewUUID()
